@@ -673,7 +673,7 @@ KERNEL_COUNTERS = {"draw_count": "the chain's draw counter, advanced once per dr
 
 def r9(F, R):
     R.rule("C18-R9", "what mclmc_kernel takes from the chain is either configuration or read where it lives: a plain-data field of MclmcChain (number, flag, Option of one) that "
-                     "the kernel reads is never stored after construction - the step size and the decoherence length, which adaptation and set_position change, are read "
+                     "the kernel reads is never stored through a reference after construction (a builder that fills an owned chain value is construction) - the step size and the decoherence length, which adaptation and set_position change, are read "
                      "from the Hamiltonian inside the call. A per-draw quantity cached in the chain (a step count computed after adapt) is stale on the histories its writer "
                      "does not see (a second set_position), and the draw then takes a number of steps that does not belong to the step size in force. Listed counters: %s"
            % ", ".join(sorted(KERNEL_COUNTERS)))
@@ -723,7 +723,9 @@ def r9(F, R):
             for st in blk["stmts"]:
                 if st["k"] == "assign":
                     fs = chain_fields(st["pl"])
-                    if fs and fs[0] in watched:
+                    # a store into an owned chain value (a builder `fn with_x(mut self, ..) -> Self`, the settings -> chain conversion filling a fresh
+                    # chain) is construction; only a store through a reference (`&mut self`) changes a chain that is already sampling
+                    if fs and fs[0] in watched and "*" in st["pl"]["p"]:
                         writers.setdefault(fs[0], []).append((x, st))
     for f in sorted(watched):
         key = "%s:%s" % (adts[0], f)
